@@ -84,6 +84,7 @@ def run(ctx):
         cases = [relgen.make_case(rng, kinds=WIN_KINDS, max_tr=4, **SAFE) for _ in range(n)]
         res = relcheck.run_cases(cases, "sql.sqlite")
         for c, r in zip(cases, res):
+            orig = c
             has_win = "( window" in c.sexp
             nontrivial = r["status"] == "ok" and has_win and r.get("mode") != "ambiguous" and len(r.get("rows") or []) >= 2
             ctx.case((c.prql, str(c.db)), nontrivial=nontrivial)
@@ -107,7 +108,8 @@ def run(ctx):
             ctx.oracle_failure(fid, f"{r['status']}: {r['detail']}",
                                {"prql": c.prql, "target": "sql.sqlite", "db": c.db, "schema": c.schema_list, "sql": r.get("sql"),
                                 "observed_rows": r.get("rows"), "observed_columns": r.get("names"), "expected_rows": r.get("model_rows"),
-                                "expected_columns": c.columns, "order_flags": r.get("flags"), "status": r["status"], "detail": r["detail"], "class": fid})
+                                "expected_columns": c.columns, "order_flags": r.get("flags"), "status": r["status"], "detail": r["detail"], "class": fid},
+                               det_key=None if label == "seed" else (orig.prql, orig.db))
     ctx.obligation("oracle: windowed values and row counts on SQLite equal the reference semantics (all unlisted cases)",
                    not [v for v in ctx.violations if v["kind"] == "failing-input"], "")
 
